@@ -1,9 +1,155 @@
 import Driver.Util
-/-! driver ops of C14 (prefix `c14.`); filled in by the C14 work -/
+import Model.Tsig
+/-! driver ops of C14 (prefix `c14.`).
+
+encodings: name = `parseName`; key = `name/secret/alg`; rdata = `alg/time/fudge/mac/origid/error/other`;
+ctx = `none` | `hash/size/secret/data`; keyring = `absent` | `novalidate` | `key:<key>` |
+`dict:<name>=s:<secret>;<name>=k:<key>;…`; HMAC graph = `h=-` | `h=<hash>:<key>:<data>:<digest>;…`
+(the values of the external HMAC at the points the implementation evaluated it). -/
 namespace Driver
-open Model
+open Model Model.Tsig
+
+def c14Key (s : String) : Option Key :=
+  match splitOnChar s '/' with
+  | [n, sec, a] => do
+    let n ← parseName n; let sec ← ofHex sec; let a ← parseName a
+    some { name := n, secret := sec, algorithm := a }
+  | _ => none
+
+def c14Rdata (s : String) : Option Rdata :=
+  match splitOnChar s '/' with
+  | [a, t, f, m, o, e, ot] => do
+    let a ← parseName a; let t ← t.toNat?; let f ← f.toNat?; let m ← ofHex m
+    let o ← o.toNat?; let e ← e.toNat?; let ot ← ofHex ot
+    some { algorithm := a, timeSigned := t, fudge := f, mac := m, originalId := o, error := e, other := ot }
+  | _ => none
+
+def c14ShowRdata (r : Rdata) : String :=
+  s!"{showName r.algorithm}/{r.timeSigned}/{r.fudge}/{toHexP r.mac}/{r.originalId}/{r.error}/{toHexP r.other}"
+
+def c14Ctx (s : String) : Option (Option Ctx) :=
+  if s = "none" then some none else
+  match splitOnChar s '/' with
+  | [h, sz, sec, d] => do
+    let h ← h.toNat?; let sz ← sz.toNat?; let sec ← ofHex sec; let d ← ofHex d
+    some (some { secret := sec, hash := h, size := sz, data := d })
+  | _ => none
+
+def c14ShowCtx : Option Ctx → String
+  | none => "none"
+  | some c => s!"{c.hash}/{c.size}/{toHexP c.secret}/{toHexP c.data}"
+
+def c14KeyVal (s : String) : Option (Name × KeyVal) :=
+  match splitOnChar s '=' with
+  | [n, v] => do
+    let n ← parseName n
+    if v.startsWith "s:" then do
+      let sec ← ofHex (v.drop 2).toString
+      some (n, .secret sec)
+    else if v.startsWith "k:" then do
+      let k ← c14Key (v.drop 2).toString
+      some (n, .key k)
+    else none
+  | _ => none
+
+def c14Keyring (s : String) : Option Keyring :=
+  if s = "absent" then some .absent
+  else if s = "novalidate" then some .noValidate
+  else if s.startsWith "key:" then (c14Key (s.drop 4).toString).map .key
+  else if s.startsWith "dict:" then
+    let body := (s.drop 5).toString
+    if body = "" then some (.dict []) else ((splitOnChar body ';').mapM c14KeyVal).map .dict
+  else none
+
+/-- the external HMAC as the finite graph supplied on the line (empty digest where it was never evaluated) -/
+def c14H (s : String) : Option Hmac :=
+  if !s.startsWith "h=" then none else
+  let body := (s.drop 2).toString
+  if body = "-" then some (fun _ _ _ => []) else do
+    let rows ← (splitOnChar body ';').mapM fun r =>
+      match splitOnChar r ':' with
+      | [h, k, d, o] => do
+        let h ← h.toNat?; let k ← ofHex k; let d ← ofHex d; let o ← ofHex o
+        some (h, k, d, o)
+      | _ => none
+    some fun h k d =>
+      match rows.find? (fun r => r.1 == h && r.2.1 == k && r.2.2.1 == d) with
+      | some r => r.2.2.2
+      | none => []
+
+def c14Err (e : Err) : String := "err " ++ e.toString
+
+def c14ShowRead (r : ReadOk) : String :=
+  match r.tsig with
+  | none => s!"ok signed=0 owner=none rd=none in=none ctx={c14ShowCtx r.ctx}"
+  | some f =>
+    let inp := match f.checked with
+      | none => "none"
+      | some (c, _) => toHexP c.data
+    s!"ok signed=1 owner={showName f.owner} rd={c14ShowRdata f.rd} in={inp} ctx={c14ShowCtx r.ctx}"
+
+def c14Flips (tbl : List AlgEntry) (strict : Bool) (w : Bytes) (kr : Keyring) (now : Nat) (rm : Bytes)
+    (ctx : Option Ctx) (multi : Bool) : String :=
+  match readV (fun _ _ => true) tbl strict w kr now rm ctx multi with
+  | .ok { tsig := some { checked := some orig, .. }, .. } =>
+    let n := w.length * 8
+    "ok " ++ String.ofList ((List.range n).map fun i =>
+      -- only "accepted as validated" is compared: whether an altered message that is not accepted is rejected
+      -- or returned as an *unsigned* message depends on decoding the other records (skeleton reader)
+      if flipVerdict tbl strict kr now rm ctx multi orig (flipBit w i) == 'A' then 'A' else 'r')
+  | .ok _ => "err genuine-message-not-checked"
+  | .error e => c14Err e
 
 def handleC14 : List String → Option String
+  | ["c14.mac", key, data, h] => do
+    let key ← c14Key key; let data ← ofHex data; let H ← c14H h
+    some (match getContext algTable key with
+      | .error e => c14Err e
+      | .ok c => "ok " ++ toHexP ((c.update data).sign H))
+  | ["c14.digest", wire, key, rd, time, rm, ctx, multi] => do
+    let wire ← ofHex wire; let key ← c14Key key; let rd ← c14Rdata rd
+    let time ← (if time = "none" then some none else time.toNat?.map some)
+    let rm ← ofHex rm; let ctx ← c14Ctx ctx; let multi ← parseBool multi
+    some (match digest algTable wire key rd time rm ctx multi with
+      | .error e => c14Err e
+      | .ok c => "ok " ++ c14ShowCtx (some c))
+  | ["c14.sign", wire, key, rd, time, rm, ctx, multi, h] => do
+    let wire ← ofHex wire; let key ← c14Key key; let rd ← c14Rdata rd; let time ← time.toNat?
+    let rm ← ofHex rm; let ctx ← c14Ctx ctx; let multi ← parseBool multi; let H ← c14H h
+    some (match sign H algTable wire key rd time rm ctx multi with
+      | .error e => c14Err e
+      | .ok (rd', c') => s!"ok {c14ShowRdata rd'} {c14ShowCtx c'}")
+  | ["c14.validate", wire, key, owner, rd, now, rm, ts, ctx, multi, h] => do
+    let wire ← ofHex wire; let key ← c14Key key; let owner ← parseName owner; let rd ← c14Rdata rd
+    let now ← now.toNat?; let rm ← ofHex rm; let ts ← ts.toNat?; let ctx ← c14Ctx ctx
+    let multi ← parseBool multi; let H ← c14H h
+    some (match validateV (verifyWith H) algTable wire key owner rd now rm ts ctx multi with
+      | .error e => c14Err e
+      | .ok (c, c') => s!"ok {c14ShowCtx c'} in={toHexP c.data}")
+  | ["c14.rdenc", rd] => do
+    let rd ← c14Rdata rd
+    some ("ok " ++ toHexP (rdataWire rd))
+  | ["c14.rddec", w, start, endp] => do
+    let w ← ofHex w; let start ← start.toNat?; let endp ← endp.toNat?
+    some (match rdataParse w start endp with
+      | .error e => c14Err e
+      | .ok rd => "ok " ++ c14ShowRdata rd)
+  | ["c14.signmsg", body, owner, key, rd, now, rm, ctx, multi, h] => do
+    let body ← ofHex body; let owner ← ofHex owner; let key ← c14Key key; let rd ← c14Rdata rd
+    let now ← now.toNat?; let rm ← ofHex rm; let ctx ← c14Ctx ctx; let multi ← parseBool multi; let H ← c14H h
+    some (match signMessage H algTable body owner key rd now rm ctx multi with
+      | .error e => c14Err e
+      | .ok (w, _, c') => s!"ok {toHexP w} {c14ShowCtx c'}")
+  | ["c14.read", wire, kr, now, rm, ctx, multi, strict, h] => do
+    let wire ← ofHex wire; let kr ← c14Keyring kr; let now ← now.toNat?; let rm ← ofHex rm
+    let ctx ← c14Ctx ctx; let multi ← parseBool multi; let strict ← parseBool strict; let H ← c14H h
+    some (match read H algTable strict wire kr now rm ctx multi with
+      | .error e => c14Err e
+      | .ok r => c14ShowRead r)
+  | ["c14.flips", wire, kr, now, rm, ctx, multi, strict] => do
+    let wire ← ofHex wire; let kr ← c14Keyring kr; let now ← now.toNat?; let rm ← ofHex rm
+    let ctx ← c14Ctx ctx; let multi ← parseBool multi; let strict ← parseBool strict
+    some (c14Flips algTable strict wire kr now rm ctx multi)
   | _ => none
 
 end Driver
